@@ -658,12 +658,16 @@ type stubQ struct {
 	calls    int
 	lastType uint16
 	lastName string
+	lastCD   bool
+	lastRD   bool
 }
 
 func (s *stubQ) Query(ctx context.Context, req *dns.Msg) (*dns.Msg, error) {
 	s.calls++
 	s.lastType = req.Question[0].Qtype
 	s.lastName = req.Question[0].Name
+	s.lastCD = req.CheckingDisabled
+	s.lastRD = req.RecursionDesired
 	switch s.a.err {
 	case 'g':
 		return nil, errors.New("upstream exploded")
@@ -1057,6 +1061,10 @@ func execServe(f []string) vlib.Res {
 	if sq.calls > 0 {
 		aq = int(sq.lastType)
 	}
+	aqs := strconv.Itoa(aq)
+	if sq.calls > 0 && sq.lastCD {
+		aqs += "cd" // the model never asks with CD: a sub-query that skips validation shows as a difference
+	}
 	sect := func(rrs []dns.RR) string {
 		var out []string
 		for _, rr := range rrs {
@@ -1067,7 +1075,7 @@ func execServe(f []string) vlib.Res {
 		}
 		return strings.Join(out, ",")
 	}
-	impl := fmt.Sprintf("same=%s rc=%d ad=%s aq=%d ede4=%s ans=%s ns=%s ex=%s", vlib.B(same), reply.Rcode, vlib.B(reply.AuthenticatedData), aq,
+	impl := fmt.Sprintf("same=%s rc=%d ad=%s aq=%s ede4=%s ans=%s ns=%s ex=%s", vlib.B(same), reply.Rcode, vlib.B(reply.AuthenticatedData), aqs,
 		vlib.B(hasEDE(reply, 4)), at, sect(reply.Ns), sect(reply.Extra))
 
 	or := judgeServe(client, internal, rd, cd, qclass, qtype, qname, qlabels, down, ar, reply, same, sq)
@@ -1087,6 +1095,16 @@ func execServe(f []string) vlib.Res {
 		}
 		if !got {
 			or = fail("serve/addr/a-records-not-synthesised", "every gate open, A RRset present, no synthesised AAAA")
+		}
+	}
+	if or == "ok" && sq.calls > 0 {
+		// the secondary lookup stands in for a client that asked with CD=0 (a CD=1 client is
+		// never served by DNS64): it must be a recursive, VALIDATED lookup, or an A RRset that
+		// fails validation would be embedded instead of surfacing as the A-side SERVFAIL
+		if sq.lastCD {
+			or = fail("serve/secondary-lookup/checking-disabled", "sub-query sent with CD=1 for a CD=0 client")
+		} else if !sq.lastRD {
+			or = fail("serve/secondary-lookup/not-recursive", "")
 		}
 	}
 	if twoQ && strings.Contains(or, "sig=ptr/roundtrip/") {
@@ -1362,6 +1380,10 @@ func judgeServe(client netip.Addr, internal, rd, cd bool, qclass, qtype uint16, 
 		}
 		if s.Hdr.Ttl > maxATTL {
 			return fail("serve/ttl/exceeds-a-ttl", fmt.Sprintf("ttl=%d a=%d", s.Hdr.Ttl, maxATTL))
+		}
+		if len(down.soas) == 0 && s.Hdr.Ttl > 600 {
+			// RFC 6147 section 5.1.7: without an SOA in the AAAA reply the bound is 600 s
+			return fail("serve/ttl/exceeds-no-soa-ceiling", fmt.Sprintf("ttl=%d", s.Hdr.Ttl))
 		}
 		if len(down.soas) > 0 {
 			// RFC 2308 section 5: negative TTL = min(SOA TTL, SOA MINIMUM)
